@@ -1,7 +1,18 @@
 #!/bin/sh
 # Build the harness binaries offline against /repo (hooks on) and syntax-check the TLA+ tree.
-set -e
+# A single broken binary / module must not take the other checks down: problems are reported as warnings
+# here and surface as TOOL-ERROR (exit 2) of the one check that needs the broken piece.
 cd "$(dirname "$0")"
 export CARGO_NET_OFFLINE=true
-(cd harness/vh && cargo build --release --offline --bins)
-python3 tools/sany_all.py
+cd harness/vh
+cargo build --release --offline --lib || exit 1
+if ! cargo build --release --offline --bins; then
+  echo "WARNING: building all harness binaries together failed; building them one by one"
+  for f in src/bin/*.rs; do
+    b=$(basename "$f" .rs)
+    cargo build --release --offline --bin "$b" || echo "WARNING: harness binary $b does not build"
+  done
+fi
+cd ../..
+python3 tools/sany_all.py || echo "WARNING: some TLA+ modules do not parse (see above)"
+exit 0
